@@ -30,7 +30,7 @@ def _gen_vectors(ctx, fam, npa, nra, deviations, simulate, depth, label):
                 simulate=simulate, depth=depth, label=label or ("Gen %s %dx%d" % (fam, npa, nra)), timeout=1500)
     out, seen = [], set()
     for v in r.vectors:     # several terminal states per case where the mechanism has a choice
-        k = core.canon([v["pa"], v["ra"], v.get("tagged", False), v["pv"], v["rv"]])
+        k = case_key(v)
         if k not in seen:
             seen.add(k)
             out.append(v)
@@ -62,6 +62,27 @@ def combine_cases(ctx, vectors1, n, seed, fam="req", mode="random"):
     byloc = {}
     for v in vectors1:
         byloc.setdefault(v[key][0]["loc"], []).append(v)
+    if mode == "twotags":
+        # two tagged responses (cfg.tags 2 / 3): two plain string result attributes, each the tag attribute of a response of
+        # its own; n method shapes (attribute pair x declaration order), each with the results matching none / the first /
+        # the second / both tags
+        tagv = [v for v in vectors1 if tag_attr(v[key][0])]
+        hit = lambda v: not hg.is_absent(v[val][0]) and v[val][0]["n"] == 3 and v[val][0]["s"] == "plain"
+        byshape = {}
+        for v in tagv:
+            byshape.setdefault(core.canon(v[key][0]), [[], []])[1 if hit(v) else 0].append(v)
+        shapes = sorted(k for k, (miss, hits) in byshape.items() if miss and hits)
+        pairs = [(x, y, t) for x in shapes for y in shapes for t in (2, 3)]
+        rnd.shuffle(pairs)
+        for x, y, t in pairs[:n]:
+            for hx in (0, 1):
+                for hy in (0, 1):
+                    a, b = rnd.choice(byshape[x][hx]), rnd.choice(byshape[y][hy])
+                    c = {"pa": a["pa"], "ra": a["ra"], "tagged": True, "tags": t, "pv": a["pv"], "rv": a["rv"]}
+                    c[key] = a[key] + b[key]
+                    c[val] = a[val] + b[val]
+                    cases.append(c)
+        n = 0
     tries = 0
     while len(cases) < n and tries < 40 * n:
         tries += 1
@@ -85,7 +106,7 @@ def combine_cases(ctx, vectors1, n, seed, fam="req", mode="random"):
         # MapParams("a1") takes the whole query string: what another query parameter next to it means is not defined
         if any(x[key][0]["nest"] == "mapparams" and y[key][0]["loc"] == "query" for x, y in ((a, b), (b, a))):
             continue
-        c = {"pa": a["pa"], "ra": a["ra"], "tagged": False, "pv": a["pv"], "rv": a["rv"]}
+        c = {"pa": a["pa"], "ra": a["ra"], "tagged": False, "tags": 0, "pv": a["pv"], "rv": a["rv"]}
         c[key] = a[key] + b[key]
         c[val] = a[val] + b[val]
         k = core.canon(c)
@@ -104,6 +125,11 @@ def combine_cases(ctx, vectors1, n, seed, fam="req", mode="random"):
     return out
 
 
+def tag_attr(a):
+    """TagAttr of HTTPTransport.tla: a plain string attribute can be the tag attribute of a response"""
+    return a["kind"] == "string" and a["nest"] == "direct" and a["rule"] == "none"
+
+
 def sample_shapes(vectors, frac, seed, strata="fine"):
     """Keep every vector of a seeded pseudo-random subset of the method shapes, stratified so that every
     (nesting, rule, body-or-not, mode) combination keeps at least one shape."""
@@ -115,7 +141,9 @@ def sample_shapes(vectors, frac, seed, strata="fine"):
         a = (v["pa"] if v.get("fam") == "req" else v["ra"])[0]
         if strata == "coarse":      # what matters for code generation: nesting, location, mode, kind
             return (a["nest"], a["loc"], a["mode"], a["kind"])
-        return (a["nest"], a["rule"], a["loc"] == "body", a["mode"], v.get("tagged", False))
+        if a["kind"] == "bytes" and a["loc"] != "body":      # Bytes as raw parameter text: every location x rule
+            return ("bytes", a["loc"], a["rule"])
+        return (a["nest"], a["rule"], a["loc"] == "body", a["mode"], bool(v.get("tagged", False)))
     best = {}
     for v in vectors:
         s, d = stratum(v), h(v)
@@ -215,7 +243,10 @@ def project(v, events):
         elif is_whole(ra):
             o["rwhere"] = [whole_where(ra[0], w, "r1")]
         else:
-            o["rwhere"] = hg.observed_where([("r%d" % (j + 1), a["loc"]) for j, a in enumerate(ra)], w)
+            # (two tagged responses: each maps headers / cookies under names of its own; the attributes are looked up under
+            #  the names of the response the oracle expects to answer)
+            sfx = hg.resp_suffix(v["allow"]["status"]) if hg.tags_of(v) >= 2 and "allow" in v else ""
+            o["rwhere"] = hg.observed_where([("r%d" % (j + 1), a["loc"]) for j, a in enumerate(ra)], w, suffix=sfx)
     cr = hg.find(events, "client_return")
     if cr:
         c = cr[0]
@@ -268,7 +299,7 @@ def run_family(ctx, fam, vectors, per_design=40, parallel_args=None, name=None):
         k = hg.shape_key(v)
         if k not in index:
             index[k] = len(shapes)
-            shapes.append({"pa": v["pa"], "ra": v["ra"], "tagged": v.get("tagged", False)})
+            shapes.append({"pa": v["pa"], "ra": v["ra"], "tagged": v.get("tagged", False), "tags": hg.tags_of(v)})
     designs, where = hg.pack_designs(shapes, per_design)
     pl = hg.Pipeline(ctx, name or ("gen-" + fam))
     pl.prepare(designs)
@@ -304,7 +335,7 @@ def val_tag(v):
 def short_case(c):
     """What goes into a replay file / sample."""
     v = c["v"]
-    return {"vector": {k: v[k] for k in ("fam", "pa", "ra", "tagged", "pv", "rv", "allow")}, "observed": {k: c["obs"][k] for k in c["obs"] if k not in ("delivered_raw", "returned_raw")},
+    return {"vector": {k: v.get(k) for k in ("fam", "pa", "ra", "tagged", "tags", "pv", "rv", "allow")}, "observed": {k: c["obs"][k] for k in c["obs"] if k not in ("delivered_raw", "returned_raw")},
             "delivered_raw": c["obs"].get("delivered_raw"), "returned_raw": c["obs"].get("returned_raw"),
             "events": c["events"]}
 
@@ -316,7 +347,7 @@ DEVIATIONS = ["param.empty_string_is_absent", "cookie.value_sanitized", "client.
 
 
 def case_key(v):
-    return core.canon([v["pa"], v["ra"], v.get("tagged", False), v["pv"], v["rv"]])
+    return core.canon([v["pa"], v["ra"], hg.tags_of(v), v["pv"], v["rv"]])
 
 
 CONTAINER_NESTS = ("elem", "mapkey", "mapval", "mapval_elem", "mapparams", "elem_nested", "mapval_nested", "mapkey_alias", "whole_elem", "whole_mapval")
@@ -379,7 +410,7 @@ class Explainer:
         self.deep = set()
 
     def _run(self, vs, devsets):
-        cases = "".join(json.dumps({"pa": v["pa"], "ra": v["ra"], "tagged": v.get("tagged", False), "pv": v["pv"], "rv": v["rv"]}) + "\n" for v in vs)
+        cases = "".join(json.dumps({"pa": v["pa"], "ra": v["ra"], "tagged": bool(v.get("tagged", False)), "tags": hg.tags_of(v), "pv": v["pv"], "rv": v["rv"]}) + "\n" for v in vs)
         ds = "".join(json.dumps({"devs": d}) + "\n" for d in devsets)
         r = self.ctx.gen("mc/Explain_HTTPTransport", "mc/Explain_HTTPTransport.cfg", consts={"NPA": self.npa, "NRA": self.nra},
                          files={"cases.ndjson": cases, "devsets.ndjson": ds}, label="Explain %s (%d cases x %d deviation sets)" % (self.fam, len(vs), len(devsets)), timeout=1500)
@@ -451,7 +482,7 @@ class Explainer:
 def trace_lines(c):
     """Trace events of one executed case (projection only: nothing is judged here)."""
     v, o = c["v"], c["obs"]
-    out = [{"ev": "reset", "pa": v["pa"], "ra": v["ra"], "tagged": v.get("tagged", False), "pv": v["pv"], "rv": v["rv"]}]
+    out = [{"ev": "reset", "pa": v["pa"], "ra": v["ra"], "tagged": bool(v.get("tagged", False)), "tags": hg.tags_of(v), "pv": v["pv"], "rv": v["rv"]}]
     if o["where"] is None:
         return None
     out.append({"ev": "wire", "where": o["where"]})
